@@ -725,7 +725,7 @@ impl C09 {
 
 impl Monitor for C09 {
     fn total_cases(&self) -> u64 {
-        2 + elfgen::bundled().len() as u64 + self.tier.pick(40_000, 1_500_000)
+        2 + elfgen::bundled().len() as u64 + self.tier.pick(160_000, 3_000_000)
     }
     fn run_case(&mut self, k: u64, rng: &mut Rng, col: &mut Collector) {
         let nb = elfgen::bundled().len() as u64;
